@@ -39,9 +39,10 @@ PROBES = ['$', '@debug $', '$ + 35', '$ 2', '($ 3) + 35', '$ to base 7', '-$', '
 
 def bound(n, max_sz):
     """what `in proportion to the input' means for the verdict: four times the
-    theorem's line (largest element size x input length) plus 64 KiB of slack
-    for the allocator's rounding and the harness's own buffers"""
-    return 4 * max_sz * n + 65536
+    theorem's line (largest element size x input length) plus 1 MiB of slack
+    (a bounded pre-allocation such as min(len, 1024) elements, hashbrown's
+    rounding to a power of two, the harness's own buffers)"""
+    return 4 * max_sz * n + (1 << 20)
 
 def kind_of(o):
     p = try_parse(o)
@@ -159,9 +160,15 @@ def check(c):
                 continue
             c.violation('accept-reject-differs-from-model', dict(replay, kind='impl-vs-model', layer='L2 accept/reject'), no_input=True)
             continue
-        if A > 4096 and not (A <= observed):
-            c.violation('allocation-differs-from-model', dict(replay, kind='impl-vs-model', layer='max allocation request', observed=observed, model=A), no_input=True)
-            continue
+        Af = fp[-1] if isinstance(fp, list) and isinstance(fp[-1], int) else 0
+        if A > 4096 and A > observed:
+            if Af <= observed:
+                # the request the pinned reader would make was not made, the capped one of the repaired
+                # reader was: a different (smaller) pre-allocation, same result
+                c.repr_drift += 1
+            else:
+                c.violation('allocation-differs-from-model', dict(replay, kind='impl-vs-model', layer='max allocation request', observed=observed, model=A, model_fixed=Af), no_input=True)
+                continue
         if ik == 'ok':
             ents = S.split_entries(tp)
             p2k, p2 = kind_of(m2.get(i, ''))
